@@ -8,6 +8,7 @@
   generated case against an independent textbook unifier (harness/unif.py) instead.
 -/
 import Yld.Proofs.UnifySound
+import Yld.Proofs.UnifyMGU
 namespace Yld.C02
 
 /-- Compound terms unify only if both name and number of arguments agree: equal names with
@@ -56,5 +57,45 @@ theorem unify_yields_at_most_once (f : Nat) (t1 t2 : Term) (w : World) : Shape (
 theorem unify_sound_at_yield (f : Nat) (t1 t2 : Term) (w : World) :
     ShapeP (fun pre => Ext w.b pre.b ∧ Same pre.b t1 t2) (unify f t1 t2) w :=
   unify_sound f t1 t2 w
+
+/-! ### Most general unifier (solutions instead of substitution composition)
+
+A valuation θ gives every variable a term; θ *solves* a heap when every binding `x := u` of the heap
+holds under θ (`θ x = u[θ]`). -/
+
+/-- A pair that has a unifier among the solutions of the heap is never refused: `unify` yields
+    (the probing consumer gets its `stop` back) or runs out of fuel. -/
+theorem unify_is_complete (f : Nat) (t1 t2 : Term) (w : World) (θ : Nat → Term) (hθ : Solves θ w.b)
+    (hu : t1.subst θ = t2.subst θ) :
+    (unify f t1 t2 probe w).2 = some .stop ∨ (unify f t1 t2 probe w).2 = some .oof :=
+  unify_complete f t1 t2 w θ hθ hu
+
+/-- `unify` ends without a yield (and without running out of fuel) only when no solution of the
+    heap makes the two terms equal. -/
+theorem unify_fails_only_when_no_unifier (f : Nat) (t1 t2 : Term) (w : World)
+    (h : (unify f t1 t2 probe w).2 = none) : ∀ θ, Solves θ w.b → t1.subst θ ≠ t2.subst θ :=
+  unify_fails_only_without_unifier f t1 t2 w h
+
+/-- At the yield the heap has exactly the solutions of the starting heap that make the two terms
+    equal: none is lost (every unifier is an instance of the computed one: most general), none is
+    gained (the computed one is a unifier). The consumer is called once, on that heap. -/
+theorem unify_yields_a_most_general_unifier (f : Nat) (t1 t2 : Term) (w : World)
+    (h : (unify f t1 t2 probe w).2 = some .stop) :
+    ∃ (pre : World) (post : World → World), (∀ k : K, unify f t1 t2 k w = ((post (k pre).1), (k pre).2)) ∧
+      ∀ θ, Solves θ pre.b ↔ (Solves θ w.b ∧ t1.subst θ = t2.subst θ) :=
+  unify_yield_is_mgu f t1 t2 w h
+
+/-- The same for argument lists (`unify_arrays`, clause heads, fact matching). -/
+theorem unify_arrays_mgu (f : Nat) (as bs : List Term) (w : World) :
+    MShape (fun θ => as.map (Term.subst θ) = bs.map (Term.subst θ)) (unifyList (unify f) as bs) w :=
+  unifyList_mshape (unify f) (unify_mshape f) as bs w
+
+/-- Non-vacuity: the empty heap is solved by every valuation, and `f(X,b)` / `f(a,Y)` have the
+    unifier X ↦ a, Y ↦ b. -/
+example : Solves (fun n => if n = 0 then .atom "a" else .atom "b") Bind.empty ∧
+    (Term.fn "f" [.var 0, .atom "b"]).subst (fun n => if n = 0 then .atom "a" else .atom "b") =
+    (Term.fn "f" [.atom "a", .var 1]).subst (fun n => if n = 0 then .atom "a" else .atom "b") := by
+  refine ⟨fun x u h => by simp [Bind.empty] at h, ?_⟩
+  simp [subst_fn, Term.subst]
 
 end Yld.C02
